@@ -100,7 +100,8 @@ def run_traj(case):
         dt, n = rng.choice([(0.1, 10), (0.05, 20), (0.01, 100), (0.025, 37), (0.3, 7)])
     t0 = rng.choice([0.0, 0.0, 0.5]) if kind == "dyadic" else rng.choice([0.0, 0.0, 0.2])
     if kind == "dyadic" and rng.random() < 0.3:  # exact grids far from zero relative to the step (|t|/dt >= 1e5)
-        t0, dt, n = rng.choice([(1024.0, 2.0 ** -7, 40), (-2048.0, 2.0 ** -6, 64), (64.0, 2.0 ** -11, 30)])
+        t0, dt, n = rng.choice([(1024.0, 2.0 ** -7, 40), (-2048.0, 2.0 ** -6, 64), (64.0, 2.0 ** -11, 30),
+                                (1048576.0, 2.0 ** -4, 40), (-524288.0, 2.0 ** -5, 48)])  # up to |t|/dt = 1.7e7
         cnt["traj_far_time_axis"] = 1
     ts = torch.tensor([t0 + k * dt for k in range(n + 1)])
     # outputs requested only at a few times OFF the step grid (plus the two ends): both runs must still step on the
